@@ -5,7 +5,7 @@ from pyvc import native
 
 
 def run(rep, tier, seed):
-    # P: one iteration of the on='enter' loop between suspension points, heap havocked at every yield
+    # P: one iteration of each of the three work-list loops between suspension points, heap havocked at every yield
     verify_all(rep, k_walk.specs('C15'))
     rep.assumptions.append('consumer model at a yield: the yielded node is left unchanged, replaced (its .a is another '
                            'AST whose .f is the node) or deleted (.a is None); at most two send() calls per suspension')
@@ -13,5 +13,5 @@ def run(rep, tier, seed):
     sec['native_entry'] = ('b_walkmod', 'replay')
     rep.bounded(sec)
     rep.remainder = ('termination and "exactly once" under arbitrary interleavings on arbitrary trees (whole-history); '
-                     "the on='leave' / on='both' loops, the first-node prefix and the scope helper functions of walk: "
+                     'the first-node prefix, the walk-root epilogue of leave/both and the scope helper functions of walk: '
                      'bounded stand-in only')
